@@ -60,6 +60,9 @@ func longHistory(env *lib.Env, rep *lib.Report) {
 	if env.Thorough() {
 		rows = 6000
 	}
+	saved := worldFuel
+	worldFuel = 4000000
+	defer func() { worldFuel = saved }()
 	body := func(c *lib.Ctx) {
 		w := newWorld(c, worldOpt{})
 		defer func() { w.destroy() }()
